@@ -18,6 +18,7 @@ import SpsdkVerif.Proofs.HabCsf
 import SpsdkVerif.Proofs.HabLayout
 import SpsdkVerif.Proofs.HabSign
 import SpsdkVerif.Proofs.HabRoundtrip
+import SpsdkVerif.Proofs.HabVisible
 import SpsdkVerif.Proofs.Crypto
 
 namespace SpsdkVerif.C07
@@ -234,6 +235,35 @@ theorem hab_roundtrip_partial (c : Cfg) (b : Built) (h : c.WF)
     (hvis : findAppOffset (exportImage c b) c.entry HabConsts.knownAppOffsets = some c.appOff) :
     parse (exportImage c b) = .ok (expectedParse c b) :=
   hab_roundtrip_lemma c b h hd hx happ hc hvis
+
+/-- the hypothesis of `hab_roundtrip_partial` follows from the DECIDABLE predicate `AppVisible` on the configuration (and the
+    final application bytes): the second application word passes the reset-vector test, no earlier probed offset does -/
+theorem app_visible (c : Cfg) (b : Built) (h : c.WF) (happ : b.app.length = c.appBin.length)
+    (hcsf : c.hasCsf = true → (csfBytes c.version b.cmds).length = HabConsts.csfSize) (hv : AppVisible c b.app) :
+    findAppOffset (exportImage c b) c.entry HabConsts.knownAppOffsets = some c.appOff :=
+  app_visible_lemma c b h happ hcsf hv
+
+/-- `AppVisible` covers every image whose reset vector lies in the heuristic window: DCD / XMCD short enough to end
+    before the first probed word (`FrontQuiet`: ≤ 0xC4 bytes), an application of at least 8 bytes whose second word is odd,
+    non-zero and in `[entry - 0x400, entry + image length)` -/
+theorem app_visible_of_vector (c : Cfg) (app : Misc.Bytes) (h : c.WF) (hq : c.FrontQuiet) (h8 : 8 ≤ app.length)
+    (hodd : leDec (slice app 4 4) % 2 = 1)
+    (hlo : (c.entry : Int) - HabConsts.resetVectorWindow ≤ leDec (slice app 4 4))
+    (hhi : leDec (slice app 4 4) < c.entry + c.imgLen) : AppVisible c app := by
+  refine ⟨h8, ?_, fun o ho hlt => front_quiet_lemma c h hq o ho hlt⟩
+  have hne : leDec (slice app 4 4) ≠ 0 := by omega
+  simp [vectorOk, hne, hlo, hhi, hodd]
+
+/-- **the round trip with a decidable hypothesis on the configuration**: every well-formed container whose application
+    is visible in the sense of `AppVisible` parses back into its segments -/
+theorem hab_roundtrip_visible (c : Cfg) (b : Built) (h : c.WF)
+    (hd : ∀ d, c.dcd = some d → DcdWF d) (hx : ∀ x, c.xmcd = some x → XmcdWF x)
+    (happ : b.app.length = c.appBin.length)
+    (hc : c.hasCsf = true → CsfWF c.version b.cmds ∧ (getAut 2 b.cmds).isSome = isEnc c.flags)
+    (hv : AppVisible c b.app) :
+    parse (exportImage c b) = .ok (expectedParse c b) :=
+  hab_roundtrip_partial c b h hd hx happ hc
+    (app_visible c b h happ (fun hh => csfBytes_length _ _ (hc hh).1) hv)
 
 end SpsdkVerif.C07
 
